@@ -75,6 +75,10 @@ func verifPair() (*Remote, *Remote, *verifEcho, *verifEcho) {
 	ha := &verifEcho{name: "A", handled: map[string]int{}, ctxOK: true}
 	hb := &verifEcho{name: "B", handled: map[string]int{}, ctxOK: true}
 	a := &Remote{Codec: &verifChanCodec{in: ba, out: ab, addr: "a"}, Client: &Client{}, Server: ha}
+	if l := verifapi.Param("pendinglimit", 0); l > 0 {
+		// as the pool's server configures its connections (there: 50 / 10)
+		a.PendingLimit, a.PendingDiscard = l, 1
+	}
 	if verifapi.Param("nilclient", 0) == 1 {
 		a.Client = nil // as the client binary builds its connection to the pool
 	}
@@ -110,6 +114,12 @@ func VerifC14Closed() {
 			done <- res{i, got, err}
 		}(i, method)
 	}
+	// unsolicited replies (ids nobody waits for) arriving while the calls are in flight
+	junk := verifapi.Param("junk", 0)
+	for j := 0; j < junk; j++ {
+		id, _ := json.Marshal(1000 + j)
+		a.Codec.(*verifChanCodec).in <- &Message{ID: id, Version: Version, Response: &Response{Result: json.RawMessage("0")}}
+	}
 	for k := 0; k < n; k++ {
 		r := <-done
 		verifapi.Assert(r.err == nil, "c14.call-succeeds")
@@ -126,7 +136,7 @@ func VerifC14Closed() {
 	}
 	verifapi.Assert(len(hb.handled) == n, "c14.every-request-handled")
 	a.mu.Lock()
-	verifapi.Assert(len(a.pending) == 0, "c14.no-pending-left")
+	verifapi.Assert(len(a.pending) <= junk, "c14.no-pending-left")
 	a.mu.Unlock()
 	b.mu.Lock()
 	verifapi.Assert(len(b.pending) == 0, "c14.no-pending-left")
